@@ -804,7 +804,8 @@ where
             let t_ratio_end = 1.0 / self.target_ratio;
             let frames = self.chunk_size as f64;
             let advance = frames * t_ratio + 0.5 * (t_ratio_end - t_ratio) * (frames + 1.0);
-            self.needed_input_size = (self.last_index + advance).ceil() as usize + POLYNOMIAL_LEN_U;
+            self.needed_input_size =
+                (self.last_index + advance + POLYNOMIAL_LEN_U as f64).ceil() as usize;
             Ok(())
         } else {
             Err(ResampleError::RatioOutOfBounds {
@@ -828,7 +829,8 @@ where
             let t_ratio_end = 1.0 / self.target_ratio;
             let frames = self.chunk_size as f64;
             let advance = frames * t_ratio + 0.5 * (t_ratio_end - t_ratio) * (frames + 1.0);
-            self.needed_input_size = (self.last_index + advance).ceil() as usize + POLYNOMIAL_LEN_U;
+            self.needed_input_size =
+                (self.last_index + advance + POLYNOMIAL_LEN_U as f64).ceil() as usize;
             Ok(())
         } else {
             Err(ResampleError::RatioOutOfBounds {
